@@ -41,9 +41,11 @@ def krylov_rules(chk, repo, P='C14'):
     chk.rule(f'{P}.R2', 'index and slice bounds: every integer index and slice end inside the iterations is proved '
                        'within the allocated extent from the loop intervals (0 <= j <= numiter-2, 0 <= k <= j) and '
                        'guards (j > 0); stored rows have the shape of their slot.')
-    chk.rule(f'{P}.R3', 'consumers: eigh_krylov / expm_krylov are checked against every return record of the producers: '
-                       'eigh_tridiagonal(d, e) needs len(e) = len(d) - 1, every `@` needs matching inner extents, '
-                       'expm needs a square matrix.')
+    if P != 'C14':
+        # (a statement about the consumers; C14 itself speaks about the two iterations only)
+        chk.rule(f'{P}.R3', 'consumers: eigh_krylov / expm_krylov are checked against every return record of the producers: '
+                           'eigh_tridiagonal(d, e) needs len(e) = len(d) - 1, every `@` needs matching inner extents, '
+                           'expm needs a square matrix.')
     records = {}
     n_ret = 0
     for short, q in PRODUCERS.items():
@@ -113,7 +115,7 @@ def krylov_rules(chk, repo, P='C14'):
     chk.floor(f'{P}.R1', n_ret, 4)
     # consumers against every return record
     n_cons = 0
-    for q in CONSUMERS:
+    for q in (CONSUMERS if P != 'C14' else []):
         fi = repo.func(q)
         used = {c.func.id for c in ast.walk(fi.node) if isinstance(c, ast.Call) and isinstance(c.func, ast.Name)
                 and c.func.id in PRODUCERS}
@@ -148,12 +150,108 @@ def krylov_rules(chk, repo, P='C14'):
                     n_cons += 1
                     chk.ob(f'{P}.R3', where(repo, fi, node), f'{fi.name} with the {tag} result of {prod}: {text[:100]}', ok,
                            text, key=f'{P}.R3|{q}|{prod}|{tag}|{norm(node)[:70]}')
-    chk.floor(f'{P}.R3', n_cons, 10)
+    if P != 'C14':
+        chk.floor(f'{P}.R3', n_cons, 10)
     dtype_rule(chk, repo, f'{P}.R4')
+    linearity_rule(chk, repo, f'{P}.R6', consumers=(P != 'C14'))
+    from . import support
+    only = {'krylov.lanczos_iteration', 'krylov.arnoldi_iteration'} if P == 'C14' else None
+    n5 = support.defassign_rules(chk, repo, f'{P}.R5', {'krylov'}, {}, only=only)
+    chk.floor(f'{P}.R5', n5, 2 if only else 4, hard_min=2 if only else 4)
     return n_ret, n_cons
 
 
 REAL_REDUCTIONS = ('np.linalg.norm', 'abs', 'np.abs')
+
+
+def linearity_rule(chk, repo, rid, consumers=True):
+    """exp(dt A) v is linear in v while the iterations normalise their start vector: the norm must be put back"""
+    if not consumers:
+        chk.rule(rid, 'both iterations divide their start vector by its 2-norm before it becomes the first basis vector '
+                      '(orthonormal vectors start with a unit vector)')
+    else:
+        chk.rule(rid, 'linearity in the start vector: both iterations normalise their start vector before it enters the basis; '
+                  'every return path of expm_krylov is homogeneous of degree 1 in v (degree algebra: basis, coefficients and '
+                  'functions of them have degree 0, norm(v) and v degree 1, products add) - the factor norm(v) is restored '
+                  'exactly once on every path, including shortcuts for small Krylov spaces')
+    n = 0
+    for q in ('krylov.lanczos_iteration', 'krylov.arnoldi_iteration'):
+        fi = repo.func(q)
+        v = fi.params[1]
+        nrm = [s_.targets[0].id for s_ in fi.node.body if isinstance(s_, ast.Assign) and isinstance(s_.targets[0], ast.Name)
+               and norm(s_.value) in (f'np.linalg.norm({v})',)]
+        normalised = [s_ for s_ in fi.node.body if isinstance(s_, ast.Assign) and norm(s_.targets[0]) == v and
+                      any(norm(s_.value) == f'{v} / {m}' for m in nrm)]
+        first_store = [s_ for s_ in fi.node.body if isinstance(s_, ast.Assign) and isinstance(s_.targets[0], ast.Subscript)
+                       and norm(s_.value) == v]
+        ok = len(normalised) == 1 and len(first_store) == 1 and normalised[0].lineno < first_store[0].lineno
+        chk.ob(rid, where(repo, fi, normalised[0] if normalised else fi.node), f'{fi.name}: the start vector is divided by its '
+               f'2-norm before it becomes the first basis vector', ok, '', key=f'{rid}|{q}|normalised')
+        n += 1
+    if not consumers:
+        chk.floor(rid, n, 2, hard_min=2)
+        return n
+    fi = repo.func('krylov.expm_krylov')
+    vname = fi.params[1]
+
+    def deg(e, env):
+        if isinstance(e, ast.Name):
+            return env.get(e.id, 0 if e.id != vname else 1)
+        if isinstance(e, ast.Constant):
+            return 0
+        if isinstance(e, ast.Call):
+            f = norm(e.func)
+            if f == 'np.linalg.norm' and len(e.args) == 1:
+                return deg(e.args[0], env)
+            if f in ('np.exp', 'expm', 'np.conj', 'np.diag', 'np.array'):
+                d = deg(e.args[0], env)
+                if f in ('np.exp', 'expm'):
+                    return 0 if d == 0 else None
+                return d
+            return None
+        if isinstance(e, ast.BinOp):
+            l, r = deg(e.left, env), deg(e.right, env)
+            if l is None or r is None:
+                return None
+            if isinstance(e.op, (ast.Mult, ast.MatMult)):
+                return l + r
+            if isinstance(e.op, ast.Div):
+                return l - r
+            if isinstance(e.op, (ast.Add, ast.Sub)):
+                return l if l == r else None
+            return None
+        if isinstance(e, ast.Subscript):
+            return deg(e.value, env)
+        if isinstance(e, ast.Attribute) and e.attr in ('T', 'real', 'imag'):
+            return deg(e.value, env)
+        if isinstance(e, ast.UnaryOp):
+            return deg(e.operand, env)
+        return None
+
+    def walk(stmts, env):
+        nonlocal n
+        env = dict(env)
+        for s_ in stmts:
+            if isinstance(s_, ast.Assign):
+                tg = s_.targets[0]
+                if isinstance(tg, ast.Tuple) and isinstance(s_.value, ast.Call) and \
+                        norm(s_.value.func) in ('lanczos_iteration', 'arnoldi_iteration', 'eigh_tridiagonal', 'np.linalg.eigh',
+                                                'np.linalg.eig'):
+                    for t in tg.elts:
+                        env[norm(t)] = 0
+                elif isinstance(tg, ast.Name):
+                    env[tg.id] = deg(s_.value, env)
+            elif isinstance(s_, ast.If):
+                walk(s_.body, env)
+                walk(s_.orelse, env)
+            elif isinstance(s_, ast.Return):
+                d = deg(s_.value, env)
+                chk.ob(rid, where(repo, fi, s_), f'expm_krylov: `{norm(s_)[:80]}` is homogeneous of degree 1 in `{vname}`', d == 1,
+                       f'degree {d}' if d is not None else 'degree not determined', key=f'{rid}|expm|{n}')
+                n += 1
+    walk(fi.node.body, {})
+    chk.floor(rid, n, 4, hard_min=4)
+    return n
 
 
 def dtype_rule(chk, repo, rid):
@@ -206,9 +304,6 @@ def dtype_rule(chk, repo, rid):
 
 def run(chk, repo, tier):
     krylov_rules(chk, repo, 'C14')
-    from . import support
-    n5 = support.defassign_rules(chk, repo, 'C14.R5', {'krylov'}, {})
-    chk.floor('C14.R5', n5, 4, hard_min=4)
     chk.assume('A-linear-map: the matrix-free callback returns a vector of the length of its argument')
     chk.assume('documented domain: numiter >= 1, len(vstart) >= 1')
     chk.undecided += ['orthonormality of the Krylov vectors', 'realness / positivity of the coefficients',
